@@ -41,16 +41,16 @@ CONSTANTS
   ValSet, DataSet, WinSet, PinSet, CastSet,     \* alphabets
   Typed, BypassFloat, BypassRef, Invalidate,    \* caches (cf. CacheModel)
   MarkDerived, FlagAfterValidation, SameCastShortcut,
-  DerivedByIdentity, GuessEachTime, CountLive, LabelLive, PayloadLive, FileIdFollowsHeader
+  DerivedByIdentity, GuessEachTime, CountLive, LabelLive, PayloadLive, FileIdFollowsHeader, DimFollowsData
 
 VARIABLES pval, fval, zname, zorig, ucast, ubounds, tlen, vrl, pay, hid,
-          vcache, obcache, refcache, cast, bounds, pcode, tcnt, wvrl, wpay, ofid,
+          vcache, obcache, refcache, cast, bounds, pcode, tcnt, wvrl, wpay, ofid, dimw,
           out, want, hist
 
 spec  == << pval, fval, zname, zorig, ucast, ubounds, tlen, vrl, pay, hid >>
-impl  == << vcache, obcache, refcache, cast, bounds, pcode, tcnt, wvrl, wpay, ofid >>
-vars  == << pval, fval, zname, zorig, ucast, ubounds, tlen, vrl, pay, vcache, obcache, refcache, cast, bounds, pcode, tcnt, wvrl, wpay, ofid, hid, out, want, hist >>
-noHist == << pval, fval, zname, zorig, ucast, ubounds, tlen, vrl, pay, vcache, obcache, refcache, cast, bounds, pcode, tcnt, wvrl, wpay, ofid, hid, out, want, Len(hist) >>
+impl  == << vcache, obcache, refcache, cast, bounds, pcode, tcnt, wvrl, wpay, ofid, dimw >>
+vars  == << pval, fval, zname, zorig, ucast, ubounds, tlen, vrl, pay, vcache, obcache, refcache, cast, bounds, pcode, tcnt, wvrl, wpay, ofid, dimw, hid, out, want, hist >>
+noHist == << pval, fval, zname, zorig, ucast, ubounds, tlen, vrl, pay, vcache, obcache, refcache, cast, bounds, pcode, tcnt, wvrl, wpay, ofid, dimw, hid, out, want, Len(hist) >>
 
 (* ---- Python values: [t, v]; 1 == 1.0 == True, 0 == 0.0 == -0.0 ("nz") ---- *)
 AllVals == { [t |-> "int", v |-> "1"], [t |-> "float", v |-> "1"], [t |-> "bool", v |-> "1"], [t |-> "str", v |-> "1"],
@@ -81,7 +81,7 @@ ValEqual(a, b) == a = b /\ a[1] # "N"
 Init ==
   /\ pval = ValOf(<< "int", "1" >>) /\ fval = ValOf(<< "str", "1" >>) /\ zname = "ZA" /\ zorig = 0 /\ ucast = "" /\ ubounds = None /\ tlen = 1
   /\ vcache = {} /\ obcache = << >> /\ refcache = << >> /\ cast = NoCast /\ bounds = NoBounds /\ pcode = "" /\ tcnt = 1
-  /\ vrl = 256 /\ pay = "P0" /\ wvrl = 256 /\ wpay = "P0" /\ hid = "H1" /\ ofid = "H1"
+  /\ vrl = 256 /\ pay = "P0" /\ wvrl = 256 /\ wpay = "P0" /\ hid = "H1" /\ ofid = "H1" /\ dimw = 0
   /\ out = << >> /\ want = << >> /\ hist = << >>
 
 Log(op) == hist' = Append(hist, op)
@@ -89,60 +89,60 @@ Can == Len(hist) < MaxOps
 
 SetVal(k) ==
   /\ Can /\ pval' = ValOf(k) /\ Log([k |-> "set_val", t |-> k[1], v |-> k[2]])
-  /\ UNCHANGED << fval, zname, zorig, ucast, ubounds, tlen, vcache, obcache, refcache, cast, bounds, pcode, tcnt, out, want, vrl, pay, wvrl, wpay, hid, ofid >>
+  /\ UNCHANGED << fval, zname, zorig, ucast, ubounds, tlen, vcache, obcache, refcache, cast, bounds, pcode, tcnt, out, want, vrl, pay, wvrl, wpay, hid, ofid, dimw >>
 
 SetFt(k) ==      \* origin.file_type: an IDENT attribute that takes any Python value (written as str(value))
   /\ Can /\ fval' = ValOf(k) /\ Log([k |-> "set_ft", t |-> k[1], v |-> k[2]])
-  /\ UNCHANGED << pval, zname, zorig, ucast, ubounds, tlen, vcache, obcache, refcache, cast, bounds, pcode, tcnt, out, want, vrl, pay, wvrl, wpay, hid, ofid >>
+  /\ UNCHANGED << pval, zname, zorig, ucast, ubounds, tlen, vcache, obcache, refcache, cast, bounds, pcode, tcnt, out, want, vrl, pay, wvrl, wpay, hid, ofid, dimw >>
 
 Rename(n) ==
   /\ Can /\ zname' = n /\ obcache' = (IF Invalidate THEN << >> ELSE obcache) /\ Log([k |-> "rename", name |-> n])
-  /\ UNCHANGED << pval, fval, zorig, ucast, ubounds, tlen, vcache, refcache, cast, bounds, pcode, tcnt, out, want, vrl, pay, wvrl, wpay, hid, ofid >>
+  /\ UNCHANGED << pval, fval, zorig, ucast, ubounds, tlen, vcache, refcache, cast, bounds, pcode, tcnt, out, want, vrl, pay, wvrl, wpay, hid, ofid, dimw >>
 
 SetOrigin(o) ==
   /\ Can /\ zorig' = o /\ obcache' = (IF Invalidate THEN << >> ELSE obcache) /\ Log([k |-> "set_origin", ref |-> o])
-  /\ UNCHANGED << pval, fval, zname, ucast, ubounds, tlen, vcache, refcache, cast, bounds, pcode, tcnt, out, want, vrl, pay, wvrl, wpay, hid, ofid >>
+  /\ UNCHANGED << pval, fval, zname, ucast, ubounds, tlen, vcache, refcache, cast, bounds, pcode, tcnt, out, want, vrl, pay, wvrl, wpay, hid, ofid, dimw >>
 
 PinCast(dt) ==
   /\ Can /\ ucast' = dt
   /\ cast' = IF SameCastShortcut /\ cast.dt = dt THEN cast ELSE [dt |-> dt, derived |-> FALSE]
   /\ Log([k |-> "pin_cast", dt |-> dt])
-  /\ UNCHANGED << pval, fval, zname, zorig, ubounds, tlen, vcache, obcache, refcache, bounds, pcode, tcnt, out, want, vrl, pay, wvrl, wpay, hid, ofid >>
+  /\ UNCHANGED << pval, fval, zname, zorig, ubounds, tlen, vcache, obcache, refcache, bounds, pcode, tcnt, out, want, vrl, pay, wvrl, wpay, hid, ofid, dimw >>
 
 ClearCast ==
   /\ Can /\ ucast' = "" /\ cast' = NoCast /\ Log([k |-> "clear_cast"])
-  /\ UNCHANGED << pval, fval, zname, zorig, ubounds, tlen, vcache, obcache, refcache, bounds, pcode, tcnt, out, want, vrl, pay, wvrl, wpay, hid, ofid >>
+  /\ UNCHANGED << pval, fval, zname, zorig, ubounds, tlen, vcache, obcache, refcache, bounds, pcode, tcnt, out, want, vrl, pay, wvrl, wpay, hid, ofid, dimw >>
 
 (* an assignment the setter refuses (an unsupported dtype): nothing may change *)
 RejectCast ==
   /\ Can /\ cast' = IF FlagAfterValidation THEN cast ELSE [cast EXCEPT !.derived = FALSE]
   /\ Log([k |-> "reject_cast"])
-  /\ UNCHANGED << pval, fval, zname, zorig, ucast, ubounds, tlen, vcache, obcache, refcache, bounds, pcode, tcnt, out, want, vrl, pay, wvrl, wpay, hid, ofid >>
+  /\ UNCHANGED << pval, fval, zname, zorig, ucast, ubounds, tlen, vcache, obcache, refcache, bounds, pcode, tcnt, out, want, vrl, pay, wvrl, wpay, hid, ofid, dimw >>
 
 PinBounds(b) ==
   /\ Can /\ ubounds' = b /\ bounds' = [v |-> b, rec |-> bounds.rec, same |-> FALSE]
   /\ Log([k |-> "pin_bounds", ix |-> b[1], w |-> b[2]])
-  /\ UNCHANGED << pval, fval, zname, zorig, ucast, tlen, vcache, obcache, refcache, cast, pcode, tcnt, out, want, vrl, pay, wvrl, wpay, hid, ofid >>
+  /\ UNCHANGED << pval, fval, zname, zorig, ucast, tlen, vcache, obcache, refcache, cast, pcode, tcnt, out, want, vrl, pay, wvrl, wpay, hid, ofid, dimw >>
 
 Extend ==       \* comment.text.value.append(...): the list the attribute handed out grows in place
   /\ Can /\ tlen < 3 /\ tlen' = tlen + 1 /\ tcnt' = (IF CountLive THEN tlen + 1 ELSE tcnt) /\ Log([k |-> "extend"])
-  /\ UNCHANGED << pval, fval, zname, zorig, ucast, ubounds, vcache, obcache, refcache, cast, bounds, pcode, out, want, vrl, pay, wvrl, wpay, hid, ofid >>
+  /\ UNCHANGED << pval, fval, zname, zorig, ucast, ubounds, vcache, obcache, refcache, cast, bounds, pcode, out, want, vrl, pay, wvrl, wpay, hid, ofid, dimw >>
 
 SetText(n) ==
   /\ Can /\ tlen' = n /\ tcnt' = n /\ Log([k |-> "set_text", n |-> n])
-  /\ UNCHANGED << pval, fval, zname, zorig, ucast, ubounds, vcache, obcache, refcache, cast, bounds, pcode, out, want, vrl, pay, wvrl, wpay, hid, ofid >>
+  /\ UNCHANGED << pval, fval, zname, zorig, ucast, ubounds, vcache, obcache, refcache, cast, bounds, pcode, out, want, vrl, pay, wvrl, wpay, hid, ofid, dimw >>
 
 Relabel(v) ==     \* df.storage_unit_label.max_record_length = v: the next file is framed for v
   /\ Can /\ vrl' = v /\ wvrl' = (IF LabelLive THEN v ELSE wvrl) /\ Log([k |-> "relabel", vrl |-> v])
-  /\ UNCHANGED << pval, fval, zname, zorig, ucast, ubounds, tlen, pay, vcache, obcache, refcache, cast, bounds, pcode, tcnt, wpay, out, want, hid, ofid >>
+  /\ UNCHANGED << pval, fval, zname, zorig, ucast, ubounds, tlen, pay, vcache, obcache, refcache, cast, bounds, pcode, tcnt, wpay, out, want, hid, ofid, dimw >>
 
 Replace(q) ==     \* record.data = q for the no-format record
   /\ Can /\ pay' = q /\ wpay' = (IF PayloadLive THEN q ELSE wpay) /\ Log([k |-> "replace", pay |-> q])
-  /\ UNCHANGED << pval, fval, zname, zorig, ucast, ubounds, tlen, vrl, vcache, obcache, refcache, cast, bounds, pcode, tcnt, wvrl, out, want, hid, ofid >>
+  /\ UNCHANGED << pval, fval, zname, zorig, ucast, ubounds, tlen, vrl, vcache, obcache, refcache, cast, bounds, pcode, tcnt, wvrl, out, want, hid, ofid, dimw >>
 
 SetHeaderId(h) ==   \* lf.file_header.header_id = h; the defining origin's FILE-ID was taken from the header when the origin was added
   /\ Can /\ hid' = h /\ Log([k |-> "set_header", id |-> h])
-  /\ UNCHANGED << pval, fval, zname, zorig, ucast, ubounds, tlen, vrl, pay, vcache, obcache, refcache, cast, bounds, pcode, tcnt, wvrl, wpay, ofid, out, want >>
+  /\ UNCHANGED << pval, fval, zname, zorig, ucast, ubounds, tlen, vrl, pay, vcache, obcache, refcache, cast, bounds, pcode, tcnt, wvrl, wpay, ofid, dimw, out, want >>
 
 Write(d, w) ==
   /\ Can
@@ -163,9 +163,12 @@ Write(d, w) ==
          ftb  == LET hit == { e \in c1 : e.key = Key("IDENT", fval) } IN
                  IF Bypass("IDENT", fval) \/ hit = {} THEN Enc("IDENT", fval) ELSE (CHOOSE e \in hit : TRUE).bytes
          fidw == IF FileIdFollowsHeader THEN hid ELSE ofid          \* FILE-ID written (a mismatch with the header ID is refused)
-     IN /\ out'  = IF fidw # hid THEN << "raises" >> ELSE << WriteStruct(code, pval), ftb, ob, ref, eff, b2.v, cnt, wvrl, wpay, fidw >>
+         \* DIMENSION of VAL: derived from the data of every write (dimw: what an earlier write left behind, 0 = nothing)
+         dimBad == ~DimFollowsData /\ dimw # 0 /\ dimw # d.wd     \* "Previously defined dimension does not match the dimension from data"
+     IN /\ dimw' = IF dimBad THEN dimw ELSE d.wd
+        /\ out'  = IF fidw # hid \/ dimBad THEN << "raises" >> ELSE << WriteStruct(code, pval), ftb, ob, ref, eff, b2.v, cnt, wvrl, wpay, fidw, d.wd >>
         /\ want' = << Enc(Guess(pval), pval), Enc("IDENT", fval), << zname, zorig >>, << zname, zorig >>, IF ucast # "" THEN ucast ELSE d.dt,
-                      IF ubounds # None THEN ubounds ELSE Derive(d, w), tlen, vrl, pay, hid >>
+                      IF ubounds # None THEN ubounds ELSE Derive(d, w), tlen, vrl, pay, hid, d.wd >>
         /\ vcache' = IF Bypass("IDENT", fval) \/ \E e \in c1 : e.key = Key("IDENT", fval) THEN c1
                       ELSE c1 \cup {[key |-> Key("IDENT", fval), bytes |-> Enc("IDENT", fval)]}
         /\ obcache' = ob
@@ -174,7 +177,7 @@ Write(d, w) ==
         /\ bounds' = b2
         /\ pcode' = code
         /\ ofid' = fidw
-        /\ Log([k |-> "write", dt |-> d.dt, ix |-> d.ix, w |-> w, proj |-> [dt |-> eff, bix |-> b2.v[1], bw |-> b2.v[2], cnt |-> cnt]])
+        /\ Log([k |-> "write", dt |-> d.dt, ix |-> d.ix, wd |-> d.wd, w |-> w, proj |-> [dt |-> eff, bix |-> b2.v[1], bw |-> b2.v[2], cnt |-> cnt]])
   /\ UNCHANGED << pval, fval, zname, zorig, ucast, ubounds, tlen, tcnt, vrl, pay, wvrl, wpay, hid >>
 
 Next == (\E k \in ValSet : SetVal(k)) \/ (\E k \in ValSet : SetFt(k)) \/ (\E n \in Names : Rename(n)) \/ (\E o \in Origins : SetOrigin(o))
@@ -192,9 +195,9 @@ NoStaleCount == tcnt = tlen
 (* alphabets for the configurations (a .cfg file cannot spell tuples and records) *)
 KAll   == { << x.t, x.v >> : x \in AllVals }
 KSmall == { << "int", "1" >>, << "bool", "1" >>, << "str", "1" >>, << "float", "nz" >> }
-DAll   == { [dt |-> "f4", ix |-> "A"], [dt |-> "f8", ix |-> "A"], [dt |-> "f8", ix |-> "N"], [dt |-> "f8", ix |-> "B"],
-             [dt |-> "f8", ix |-> "V"] }          \* A, B evenly spaced; V unevenly spaced (DIRECTION instead of SPACING); N holds a NaN
-DSmall == { [dt |-> "f4", ix |-> "A"], [dt |-> "f8", ix |-> "N"], [dt |-> "f8", ix |-> "V"] }
+DAll   == { [dt |-> "f4", ix |-> "A", wd |-> 1], [dt |-> "f8", ix |-> "A", wd |-> 1], [dt |-> "f8", ix |-> "N", wd |-> 1],
+             [dt |-> "f8", ix |-> "B", wd |-> 1], [dt |-> "f8", ix |-> "V", wd |-> 1], [dt |-> "f8", ix |-> "A", wd |-> 2] }          \* A, B evenly spaced; V unevenly spaced (DIRECTION instead of SPACING); N holds a NaN
+DSmall == { [dt |-> "f4", ix |-> "A", wd |-> 1], [dt |-> "f8", ix |-> "N", wd |-> 1], [dt |-> "f8", ix |-> "V", wd |-> 2] }
 PAll   == { << "A", "all" >>, << "U", "all" >> }
 PSmall == { << "A", "all" >> }
 
